@@ -322,3 +322,30 @@ Theorem C01_share_hypothesis_binary64_refuted :
     PrimFloat.ltb (nth 1 (i_pp row) 0%float) 0%float = true.
 Proof. exact share_hypothesis_binary64_refuted. Qed.
 Print Assumptions C01_share_hypothesis_binary64_refuted.
+
+(* (17) TOTALITY (Proofs/BalanceTotal.v): under the same hypotheses the balancer never raises -- every list operation of the
+        loop finds its index and every itemgetter gets at least one index (repaired rule 1, exact rationals).
+        One instruction: in a kernel context whose port sums cover all ports (tps_ok: true when all rows have the length
+        of the port list and some line has a throughput) the per-instruction loop RETURNS a feasible row; one pass: on a
+        kernel meeting all_start_ok, `balance` RETURNS a kernel with the conclusions of (12). *)
+From OV Require Import Proofs.BalanceTotal.
+
+Theorem C01_multi_uop_instruction_total : forall ports k idx us pp ex,
+  instr_okb ports us = true ->
+  avg_pressure_list QNum ports us = Ok pp ->
+  tps_ok k idx (List.length ports) ->
+  exists pp' e, balance_uops QNum ports k idx pp us ex = Ok (pp', e) /\
+    Feasible (List.length ports) (1 # 100) (map (toU ports) us) (qnth pp') /\
+    List.length pp' = List.length ports /\ (forall p, 0 <= nth p pp' 0).
+Proof. exact balance_instr_total. Qed.
+Print Assumptions C01_multi_uop_instruction_total.
+
+Theorem C01_one_pass_total_feasible : forall ports (k : list (instr (T:=Q))),
+  all_start_ok ports k ->
+  exists k' e, balance QNum ports k = Ok (k', e) /\
+    List.length k' = List.length k /\
+    forall j, (j < List.length k)%nat ->
+      i_tp (nth j k' dins) = i_tp (nth j k dins) /\ i_uops (nth j k' dins) = i_uops (nth j k dins) /\
+      done_ok ports (nth j k' dins).
+Proof. exact balance_pass_total_feasible. Qed.
+Print Assumptions C01_one_pass_total_feasible.
